@@ -550,7 +550,7 @@ func ruleBatchDelivery(c *Ctx, r *R) {
 		bad := false
 		var badPos token.Pos
 		for _, e := range pf.Exits(producer, ss(1)) {
-			if e.States.has(2) {
+			if e.States.has(2) || e.States.has(0) { // 0 = the error was never established to be nil / End
 				bad = true
 				badPos = retPos(e.Ret)
 			}
